@@ -461,6 +461,8 @@ def map_history(case: dict) -> dict:
                     st["got"] = render(m[op["k"]])
                 elif op["m"] == "set":
                     m[op["k"]] = pyval(op["v"])
+                elif op["m"] == "copy":
+                    m[op["k"]] = m[op["v"]["n"]]
                 else:
                     del m[op["k"]]
             st["res"] = "ok"
